@@ -9,7 +9,7 @@ from vf.gen import SeedSource
 from vf.lang import show, typeof, walk
 from vf.props.c02 import gen_case as gen_program
 
-FOLLOWUPS = ["align", "reduce_add", "reduce_logaddexp", "reduce_max", "subs0", "add_self", "exp", "neg", "to_data", "sample", "compile", "adjoint", "optimizer", "getitem", "sum_out", "rename", "slice", "pickle", "scatter", "scatter", "blocks", "linalg", "linalg"]
+FOLLOWUPS = ["align", "reduce_add", "reduce_logaddexp", "reduce_max", "subs0", "add_self", "exp", "neg", "to_data", "sample", "compile", "adjoint", "optimizer", "getitem", "sum_out", "rename", "slice", "pickle", "scatter", "scatter", "blocks", "linalg", "linalg", "slice_index", "slice_index"]
 
 
 def gen_case(seed):
@@ -251,6 +251,24 @@ class C20(Prop):
                 bm[k : 2 * k, k : 2 * k] = held_m
                 bm[0:k, 0:k] = held_m * 0.5 if case["rng"] % 2 else held_m
                 return Tensor(np.concatenate([out_v.reshape(-1), bm.as_tensor().reshape(-1)]))
+            if op == "slice_index":
+                # a held index tensor substituted into symbolic Slices (offset / strided / full) and into a lazy term indexed by one
+                size = 5 + case["rng"] % 3
+                outs = []
+                for start, stop, step in ((2, 5, 1), (0, 3, 1), (1, size, 2), (1, 4, 1), (0, size, 2)):
+                    sl = Slice("zz_j", start, stop, step, size)
+                    n_in = sl.inputs["zz_j"].size
+                    data_ = tuple(int(v) for v in np.random.RandomState(case["rng"] + start + step).randint(0, n_in, size=4))
+                    idx = Tensor(leaves.make(("ten", (("zz_n", 4),), (), n_in, data_, False)), OrderedDict([("zz_n", Bint[4])]), n_in)
+                    outs.append(sl(zz_j=idx))
+                    v_ = Variable("zz_v", Bint[size])
+                    from funsor import Real
+
+                    w_ = Variable("zz_w", Real)
+                    with I.lazy:
+                        lz = (w_ + Tensor(np.arange(float(size)), OrderedDict([("zz_i", Bint[size])])))(zz_i=sl)
+                    outs.append(lz(zz_j=idx))
+                return outs[-1] if outs else None
             if op == "linalg":
                 # the array-level linear algebra behind Gaussians, called on monitored matrices the caller holds -
                 # including degenerate ones (v v^T is singular, the factorisation fails or needs a fallback there)
